@@ -67,7 +67,13 @@ func replayVisit(checker string) func(rc *runCtx, h *harness, v *interp.Violatio
 			} else if _, ok := model["x.List#len"]; ok {
 				category = "block"
 			}
-			sources, notes = realise(model, specView(), "x", category, 24)
+			root := "x"
+			if _, ok := model["file#nil"]; ok {
+				root, category = "file", "file"
+			} else if _, ok := model["file.Decls#len"]; ok {
+				root, category = "file", "file"
+			}
+			sources, notes = realise(model, specView(), root, category, 24)
 		}
 		if len(sources) == 0 {
 			return false, "not realised: " + strings.Join(notes, "; ")
